@@ -97,4 +97,20 @@ def trace (u : List (Option Nat) × List (Option Nat)) (b : St) : List Call → 
   | c :: cs => ((wrapCall scriptUnder u b c).1, (wrapCall scriptUnder u b c).2.2) ::
       trace (wrapCall scriptUnder u b c).2.1 (wrapCall scriptUnder u b c).2.2 cs
 
+/-! ### The `Stream` wrapper (`poll_next`): a poll answers `Pending`, or what an iterator's `next` would answer -/
+
+/-- the bar's reaction to one poll: `none` = `Poll::Pending` -/
+def onPoll {α : Type} (b : St) : Option (Option α) → St
+  | none => b
+  | some r => onItem b r
+
+/-- polls of the wrapped scripted stream: the script's entries in order, `Ready(None)` once it is exhausted;
+answer and bar state after every poll -/
+def tracePolls (script : List (Option (Option Nat))) (b : St) : Nat → List (Option (Option Nat) × St)
+  | 0 => []
+  | n + 1 =>
+    match script with
+    | [] => (some none, onPoll b (some (none : Option Nat))) :: tracePolls [] (onPoll b (some (none : Option Nat))) n
+    | p :: ps => (p, onPoll b p) :: tracePolls ps (onPoll b p) n
+
 end IndicatifModel.IterWrap
